@@ -160,6 +160,7 @@ class Interp:
         if get(c): return get(c)
         m = re.match(r'<(.+) as (.+?)>(::.+)$', c)
         if m:
+            if re.match(r"^&?(?:'\w+ )?(?:mut )?(std|core|alloc)::", m.group(1)): return None    # std types have no MIR body here: never fall back to a shim type of the same last name
             ty = last_seg(m.group(1))
             for tr in (last_seg_keep_generics(m.group(2)), strip_generics_all(last_seg_keep_generics(m.group(2)))):
                 key = "<%s as %s>%s" % (ty, tr, m.group(3))
@@ -226,9 +227,12 @@ class Interp:
 
     def strlen_concrete(self, t):
         """length of a symbolic string term, which must be determined by the path condition (forks over small lengths)"""
-        for n in range(0, 9):
+        lim = int(self.params.get('charlen', 3))
+        for n in range(0, lim + 1):
             if self.branch(Term("(= (str.len %s) %d)" % (t.s, n), 'Bool')): return n
-        raise Unsupported("symbolic string longer than 8 used as bytes")
+        # stated bound: symbolic strings that the code walks character by character are at most `charlen` long
+        self.res.covers.add('bound:charlen-cut')
+        raise Infeasible()
     def input_names(self): return [n for n, _, _, _ in self.inputs]
     def model_record(self, vals):
         rec = []
